@@ -314,13 +314,14 @@ def native_cases(lib_fnv):
         ver = "None" if p["version"] is None else "(Some (%d, %d, %d)%%N)" % p["version"]
         return f"(mkpol {caps} {ck} {ver})"
 
-    def add(name, flags, route, p, declares, embedded=False, ck_ok=True):
+    def add(name, flags, route, p, declares, embedded=False, ck_ok=True, imp="sentry", alias=None):
         fl = "[" + "; ".join('"%s"' % x for x in flags) + "]"
         man = "None" if p is None else f'(Some [("sentry", {coq_pol(p, ck_ok)})])'
         r = {"source": "RSource", "aasm": "RAasm", "avbc-plain": "RAvbc", "avbc-bundled": "RAvbc"}[route]
         project, emb = (man, "None") if not embedded else ("None", man)
-        q = f'({fl}, {r}, {project}, {emb}, ["sentry"], mkfile [[1; 2]; [3]]%N (Some (0, 1, 0)%N))'
-        C.append({"name": name, "flags": flags, "route": route, "policy": p, "declares": declares, "query": q})
+        path = "[" + "; ".join('"%s"' % seg for seg in imp.split(".")) + "]"
+        q = f'({fl}, {r}, {project}, {emb}, {path}, mkfile [[1; 2]; [3]]%N (Some (0, 1, 0)%N))'
+        C.append({"name": name, "flags": flags, "route": route, "policy": p, "declares": declares, "query": q, "import": imp, "alias": alias})
 
     add("no-manifest", [], "source", None, None)
     add("caps-no-flags", [], "source", pol(["danger"]), None)
@@ -340,6 +341,14 @@ def native_cases(lib_fnv):
     add("version-ok", [], "source", pol([], None, (0, 1, 0)), None)
     add("version-unsatisfied", [], "source", pol([], None, (9, 0, 0)), "unsatisfied-version")
     add("version-unsatisfied-checksum-ok", [], "source", pol(["danger"], ok_ck, (0, 2, 0)), "unsatisfied-version")
+    # the same policy components for a module reached through a subdirectory (dotted import path), with and without alias:
+    # [module.NAME] entries are keyed by the last segment, and every component must use that key
+    for imp, alias, tag in (("libs.sentry", None, "dotted"), ("libs.sentry", "gl", "dotted-alias"), ("libs.deep.sentry", "dd", "dotted2-alias")):
+        add(f"{tag}-caps-denied", ["--deny-caps=danger"], "source", pol(["danger"]), "denied-capability", imp=imp, alias=alias)
+        add(f"{tag}-checksum-wrong", [], "source", pol([], "0000000000000000"), "different-checksum", ck_ok=False, imp=imp, alias=alias)
+        add(f"{tag}-version-unsatisfied", [], "source", pol([], None, (9, 0, 0)), "unsatisfied-version", imp=imp, alias=alias)
+        add(f"{tag}-all-ok", ["--allow-caps=danger"], "source", pol(["danger"], ok_ck, (0, 1, 0)), None, imp=imp, alias=alias)
+    add("sentry-alias-version-unsatisfied", [], "source", pol([], None, (9, 0, 0)), "unsatisfied-version", alias="sn")
     add("aasm-caps-denied", ["--deny-caps=danger"], "aasm", pol(["danger"]), "denied-capability")
     add("aasm-checksum-wrong", [], "aasm", pol([], "0000000000000000"), "different-checksum", ck_ok=False)
     add("aasm-version-unsatisfied", [], "aasm", pol([], None, (9, 0, 0)), "unsatisfied-version")
@@ -375,8 +384,11 @@ def run_native(ctx, cli, lib, root, stats):
         d = os.path.join(root, f"nat{i}")
         shutil.rmtree(d, ignore_errors=True)
         os.makedirs(d)
-        shutil.copy(lib, os.path.join(d, "libsentry.so"))
-        open(os.path.join(d, "main.aelys"), "w").write("needs sentry\nsentry.touch()\n")
+        imp, alias = c.get("import", "sentry"), c.get("alias")
+        sub = os.path.join(d, *imp.split(".")[:-1])
+        os.makedirs(sub, exist_ok=True)
+        shutil.copy(lib, os.path.join(sub, "libsentry.so"))
+        open(os.path.join(d, "main.aelys"), "w").write(f"needs {imp}" + (f" as {alias}" if alias else "") + f"\n{alias or 'sentry'}.touch()\n")
         target = os.path.join(d, "main.aelys")
         run_dir = d
         if c["route"] == "avbc-bundled":
@@ -414,9 +426,10 @@ def run_native(ctx, cli, lib, root, stats):
         # direct oracle: what the statement forbids
         if c["declares"] and (loaded or called):
             ctx.violation(f"native-module-{'run' if called else 'loaded'}:{c['route']}:{c['declares']}",
-                          f"native module with {c['declares']} in the project manifest, route {c['route']}, flags {c['flags']}: "
+                          f"native module with {c['declares']} in the project manifest, imported as `needs {c.get('import', 'sentry')}"
+                          f"{' as ' + c['alias'] if c.get('alias') else ''}`, route {c['route']}, flags {c['flags']}: "
                           f"outcome {cls}, library loaded={loaded}, export called={called}",
-                          {"case": c["name"], "flags": c["flags"], "route": c["route"], "manifest": manifest_toml(c["policy"]),
+                          {"case": c["name"], "import": c.get("import", "sentry"), "alias": c.get("alias"), "flags": c["flags"], "route": c["route"], "manifest": manifest_toml(c["policy"]),
                            "outcome": cls, "loaded": loaded, "called": called, "output": out[-400:]})
         if not c["declares"] and not called:
             ctx.broken.append(f"native probe {c['name']}: permitted module was not run ({cls}): the probe no longer works")
@@ -601,7 +614,7 @@ def run(ctx):
             "(11 fs, 3 net, 4 exec) against a fresh scratch directory with a victim file and directory, a loopback listener and `touch sentinel`; "
             "denied => outcome must be CapabilityDenied or an unknown-name error and the directory snapshot, the listener and the sentinel untouched; "
             "allowed => the effect must be seen (sentinel sensitivity). cli: hand-written .aasm and assembled .avbc naming fs::write_text / "
-            "net::connect / sys::exec for 8 subsets x 3 spellings. native: 26 manifest/flag/route cases with a probe cdylib whose constructor and "
+            "net::connect / sys::exec for 8 subsets x 3 spellings. native: 39 manifest/flag/route cases (top-level, dotted path / subdirectory, aliases, for every policy component) with a probe cdylib whose constructor and "
             "export each drop a flag file. parse: all subsets x spellings + seeded flag lists incl. malformed; natives: registry after fixed + "
             "seeded request sequences per subset x spelling. distinct = see distinct_breakdown")
         ctx.cov["input_distribution"] = {"parse": "0-5 flags from 9 templates, ~35% malformed pieces", "natives": "1-5 requests, 25% name lists"}
